@@ -79,8 +79,8 @@ func init() {
 						continue
 					}
 					q := pr
-					if tier != "thorough" && n >= 3 {
-						q = 1
+					if (tier != "thorough" && n >= 3) || n >= 4 {
+						q = 1 // (4 members: 24 orders per enumerated round; two enumerated rounds after each of two changes do not finish in an hour)
 					}
 					out = append(out, Instance{Scenario: "c10_cb", Params: mustJSON(CBParams{Initial: n, Event: ev, Perms: q}), Bound: 0, Shards: 8})
 				}
